@@ -57,7 +57,10 @@ def pairLt (a b : List Byte × String) : Bool := lexLt a.1 b.1
 def showSel (st : Sel) (groups : List Name) (maxShard : Nat) : String :=
   let picks := groups.flatMap fun g =>
     (List.range (maxShard + 1)).map fun s =>
-      s!"{ofBytes g}:{s}=" ++ ",".intercalate ((List.range 4).map fun r => showPick (pick st g s r))
+      let la := match locateAll st g s 3 with
+        | .ok ns => "+".intercalate (ns.map ofBytes)
+        | .error e => showPick e
+      s!"{ofBytes g}:{s}=" ++ ",".intercalate ((List.range 4).map fun r => showPick (pick st g s r)) ++ "/" ++ la
   let entries := (describe st).map fun (g, s, i, p) =>
     let k := s!"{ofBytes g}-{s}-{i}"
     (toBytes k, k ++ ">" ++ showPick p)
@@ -68,10 +71,6 @@ def showSel (st : Sel) (groups : List Name) (maxShard : Nat) : String :=
 def splitSeqs : List String → List String → List (List String)
   | [], cur => [cur.reverse]
   | t :: ts, cur => if t == "|" then cur.reverse :: splitSeqs ts [] else splitSeqs ts (t :: cur)
-
-def dedup : List Name → List Name
-  | [] => []
-  | x :: xs => if xs.contains x then dedup xs else x :: dedup xs
 
 def parseTV (s : String) : Option C12.TagValue :=
   match s.toList with
@@ -101,7 +100,7 @@ def handle (line : String) : String :=
       | some k =>
         if (k.getD 0) > vals.length then "bad-op" else
         let r := showShard (applyLocators xxhash64 subj vals k n)
-        s!"{hexOrDash (entityKey subj vals)} {r} {r}"
+        s!"{hexOrDash (entityKey subj vals)} {r} {r} {r}"
       | none => "bad-op"
     | _, _, _ => "bad-op"
   | op :: toks =>
@@ -112,7 +111,7 @@ def handle (line : String) : String :=
       let maxShard := (specs.map specShards).foldl max 0
       let outs := (splitSeqs toks []).map fun sq =>
         match sq.mapM (parseEvent withSel) with
-        | some es => showSel (run es) groups maxShard
+        | some es => showSel (run (es.flatMap svcEvent)) groups maxShard
         | none => "bad-op"
       " | ".intercalate outs
     else "bad-op"
